@@ -57,7 +57,7 @@ class Link:
         self.fee = (layer << 12) | (rng.randrange(4) << 8) | stave
         self.fmt = fmt
         self.version = version
-        self.orbit = rng.choice([rng.randrange(1, 1 << 31), rng.randrange(1 << 32), 0xFFFFFFFF, 0xFFFFFFFE, 0])
+        self.orbit = rng.choice([rng.randrange(1, 1 << 31), rng.randrange(1 << 32), 0xFFFFFFFF, 0xFFFFFFFE, 0, rng.randrange(1, 1 << 16) << 16])
         self.pktcnt = 0
         self.stave_level = stave_level
         if layer <= 2:
@@ -99,7 +99,9 @@ class Link:
         """one heartbeat frame: data pages + stop page.  returns [(rdh, payload)]"""
         rng = self.rng
         nslots = nslots if nslots is not None else rng.randrange(1, 5)
-        bc0 = rng.randrange(0, 0x100)
+        # bunch crossing 0 and orbits that are multiples of 65536 are over-represented: the first TDH of such a page has zero bytes where
+        # the code looks for the padding of a 16-byte slot
+        bc0 = 0 if rng.random() < 0.15 else rng.randrange(0, 0x100)
         trig_rdh = rng.choice([0x6A03, 0x4813, 0x0893, 0x4893])    # ORBIT|HB(|SOC...)|PHT variants with bit 4 or not
         pages = []
         cur = [itsgen.ihw(self.lanes_mask)]
@@ -156,7 +158,8 @@ class Link:
         # the next heartbeat frame carries a DIFFERENT orbit (checks_list.md); it usually is the next one, but nothing says it has to be
         # larger: wrap-around of the 32-bit counter, concatenated time frames
         prev = self.orbit
-        self.orbit = rng.choice([(prev + 1) & 0xFFFFFFFF] * 3 + [rng.randrange(1 << 32), (prev - rng.randrange(1, 1000)) & 0xFFFFFFFF])
+        self.orbit = rng.choice([(prev + 1) & 0xFFFFFFFF] * 3 + [rng.randrange(1 << 32), (prev - rng.randrange(1, 1000)) & 0xFFFFFFFF,
+                                 (((prev >> 16) + 1) << 16) & 0xFFFFFFFF])
         if self.orbit == prev:
             self.orbit = (prev + 1) & 0xFFFFFFFF
         return out
